@@ -278,7 +278,8 @@ func (w *c03World) slotOps(sess *paths.Session, slot string) {
 			w.del(sess, k)
 			delOwner++
 		}
-		if over >= 4 && delPrev >= 3 && delOwner >= 3 {
+		if over >= 4 && delPrev >= 3 && delOwner >= 3 && (delOlder >= 4 || !strings.Contains(slot, "join2")) {
+			// (in the slots of a double join every key is looked at: keys on the older previous owner are rare)
 			break
 		}
 	}
@@ -592,6 +593,11 @@ func c03Child(ctx *runCtx, spec string) {
 			}
 			ctx.rep.Count("joins", 1)
 			ctx.rep.Count("joins_before_the_previous_hand-over_finished", 1)
+			for p := uint64(0); p < cs.P; p++ {
+				if len(c.Live()[0].V.Primary.PartitionByID(p).Owners()) >= 3 {
+					ctx.rep.Count("partitions_with_a_chain_of_three_owners", 1)
+				}
+			}
 			w.handOver(sess, tag+"b")
 			if !lossSoFar {
 				w.census(false)
